@@ -430,6 +430,23 @@ func runC20(c *Check) {
 				case *ssa.MakeMap:
 					pick(x.Reserve)
 					what = "map"
+				case *ssa.Call:
+					// growing a buffer by a decoded amount allocates just like make
+					switch calleeShort(&x.Call) {
+					case "(*strings.Builder).Grow", "(*bytes.Buffer).Grow":
+						if len(x.Call.Args) == 2 {
+							pick(x.Call.Args[1])
+							what = "Grow"
+						}
+					case "slices.Grow":
+						if len(x.Call.Args) == 2 {
+							pick(x.Call.Args[1])
+							what = "Grow"
+						}
+					}
+					if what == "" {
+						continue
+					}
 				default:
 					continue
 				}
